@@ -299,38 +299,108 @@ def loop_nodes(func):
     return ids
 
 
+SPI_KINDS = ("cmd", "cmdread", "cmdreadn", "cmdwriten", "regwrite", "regwriten", "regread", "regreadn", "opaque")
+
+
 def wait_loops(radio, agg, f, outs, rule="R02.1"):
-    """polling loops: the decision that ends the wait tests exactly TX_DS|MAX_RT (0x30) of the freshest STATUS.  The decision is found by
-    what it tests - a STATUS-provenance value with bits 4/5 in place, evaluated inside a while-loop (its test, or an `if .. break` in its
-    body), in send()/resend() or in a helper - not by the loop's shape or by the name of the variable holding the byte"""
+    """polling loops: the decision that ends the wait is taken on exactly TX_DS|MAX_RT (0x30) of the freshest STATUS.  A decision is the
+    group of STATUS tests evaluated between two SPI transfers inside a while-loop - in its test (also inside helpers / property getters the
+    test calls) or in an `if .. break` of its body - whatever its spelling (`s & 0x30`, `irq_ds or irq_df`, `(s & 0x30) == 0`).  Judged by
+    value: the loop goes on only if both bits were found clear, it is left only because one of them was found set, and nothing but those
+    two bits of the latest transfer is looked at"""
     lns = {}
     n = 0
+    # which loops poll: every iteration observed on any path only refreshes STATUS (NOP / register reads) - no CE edge, no write, no flush.
+    # (the force-retry loop also tests a STATUS bit, the remembered TX_DS, but its body re-transmits: it is not a wait and is judged by R02.5)
+    pure_, spi_ = {}, {}
     for out in outs:
+        cur = set()
         for ev in out.trace:
+            if ev.kind == "loop-iter":
+                cur.add(id(ev.node))
+                pure_.setdefault(id(ev.node), True)
+            elif ev.kind in ("loop-exit", "loop-break", "cut"):
+                cur.discard(id(ev.node))
+            elif ev.kind in SPI_KINDS or ev.kind == "ce":
+                harmless = ev.kind in ("regread", "regreadn", "cmdread") or (ev.kind == "cmd" and const_of(norm(ev.data[0])) == 0xFF)
+                for k_ in cur:
+                    pure_[k_] = pure_[k_] and harmless
+                    spi_[k_] = True
+    polls = {k_: pure_[k_] and spi_.get(k_, False) for k_ in pure_}
+    for out in outs:
+        group, gloop = [], None
+
+        def flush(outcome):
+            nonlocal group, gloop, n
+            if group and polls.get(id(gloop)) and outcome in ("continue", "exit"):
+                n += 1
+                ev0 = group[0][0]
+                cur = last_txn_before(out, ev0.seq)
+                union, clean = set(), True
+                zeros, ones = set(), False
+                for ev, bits, truthy in group:
+                    union |= set(bits)
+                    clean = clean and all(t_ == cur and not neg for t_, neg in bits.values())
+                    if truthy is False:
+                        zeros |= set(bits)
+                    elif truthy is True and set(bits) <= {4, 5}:
+                        ones = True
+                if outcome == "continue":
+                    ok = union == {4, 5} and clean and zeros >= {4, 5}
+                else:
+                    ok = union <= {4, 5} and clean and ones
+                agg.add(rule, f, "wait loop tests exactly TX_DS|MAX_RT (0x30) of the latest STATUS", ok,
+                        "wait decision `%s`%s looks at STATUS bits %r of transfer(s) %r (latest transfer %d) and the loop %s" % (
+                            ast.unparse(ev0.node)[:60], " (+%d more tests)" % (len(group) - 1) if len(group) > 1 else "", sorted(union),
+                            sorted({t_ for _e, bits, _t in group for t_, _n in bits.values()}, key=str), cur,
+                            "goes on" if outcome == "continue" else "is left"), ev0.node)
+            group, gloop = [], None
+
+        inside = set()
+        for ev in out.trace:
+            if ev.kind == "loop-iter":
+                inside.add(id(ev.node))
+            elif ev.kind in ("loop-exit", "loop-break", "cut"):
+                inside.discard(id(ev.node))
+            if ev.kind in SPI_KINDS:
+                # a transfer inside the loop after the tests: the round goes on (`while True: if s & 0x30: break; update()`)
+                flush("continue" if gloop is not None and id(gloop) in inside else "spi")
+                continue
+            if ev.kind in ("loop-iter", "cut") and gloop is not None and ev.node is gloop:
+                flush("continue")
+                continue
+            if ev.kind in ("loop-exit", "loop-break") and gloop is not None and ev.node is gloop:
+                flush("exit")
+                continue
             if ev.kind != "cond" or ev.func is None:
                 continue
             if ev.func.qualname not in lns:
                 lns[ev.func.qualname] = loop_nodes(ev.func)
             loop = lns[ev.func.qualname].get(id(ev.node))
+            if loop is None and ev.loop is not None:
+                loop = ev.loop[1]
             if loop is None:
                 continue
             val = ev.data[1]
+            truthy = ev.data[0]
             if isinstance(val, tuple) and len(val) == 2 and isinstance(ev.node, ast.Compare) and isinstance(ev.node.ops[0], (ast.Eq, ast.NotEq)):
                 # `status & 0x30 == 0` / `!= 0`: the same decision spelled as a comparison with zero
                 for x, y in ((val[0], val[1]), (val[1], val[0])):
                     if const_of(norm(y)) == 0 and not isinstance(norm(x), Const):
                         val = x
-            bits = status_bits_of(val) if not isinstance(val, tuple) else None
-            if not bits:
+                        truthy = (not ev.data[0]) if isinstance(ev.node.ops[0], ast.Eq) else ev.data[0]
+            raw = status_bits_of(val) if not isinstance(val, tuple) else None
+            if not raw or any(v is None for v in raw.values()):
                 continue
-            in_place = {i for i, v in bits.items() if v is not None and v[1] == i}
-            if not (in_place & {4, 5}):
-                continue  # not the wait decision (e.g. the force-retry loop's `result`, which is TX_DS moved to bit 0)
-            n += 1
-            cur = last_txn_before(out, ev.seq)
-            ok = set(bits) == {4, 5} and all(v is not None and v[0] == cur and v[1] == i and not v[2] for i, v in bits.items())
-            agg.add(rule, f, "wait loop tests exactly TX_DS|MAX_RT (0x30) of the latest STATUS", ok,
-                    "wait decision `%s` sees %r (latest transaction %d)" % (ast.unparse(ev.node)[:60], bits, cur), ev.node)
+            # which STATUS bits the truth of this value is about: the bits in place, or one single bit wherever bool() / a shift moved it
+            if len(raw) > 1 and any(v[1] != i for i, v in raw.items()):
+                continue
+            bits = {v[1]: (v[0], v[2]) for v in raw.values()}
+            if gloop is not None and loop is not gloop:
+                flush("other")
+            gloop = loop
+            group.append((ev, bits, truthy))
+        flush("end")
     return n
 
 
